@@ -1,4 +1,5 @@
 """C01 — only holders of a currently valid token for the topic get onto the relay"""
+import c02
 from tiecommon import TIE_DENY, TIE_TTLCODE, TIE_ACCESS, TIE_NOTE, TIE_ASSUMPTION
 from relaycommon import RelayMode
 
@@ -24,4 +25,5 @@ ASSUMPTIONS = ASSUMPTIONS + [TIE_ASSUMPTION]
 
 
 def modes(tier):
-    return [RelayMode("C01")]
+    # the code store's histories (incl. simultaneous exchanges of one code) run here too: "one-time code" is the store's business
+    return [RelayMode("C01"), c02.TtlMode()]
